@@ -4,6 +4,7 @@ import (
 	"bytes"
 	"errors"
 	"fmt"
+	ice "github.com/blugelabs/ice/v2"
 
 	"github.com/RoaringBitmap/roaring"
 	segment "github.com/blugelabs/bluge_segment_api"
@@ -85,6 +86,13 @@ type pfOutcome struct {
 	ret          int64
 	events       int
 	writes       int
+	// retry: the same Merger object asked to write again, to a healthy writer and
+	// without cancellation, after its first WriteTo failed
+	retried  bool
+	retryErr error
+	retryPi  *PanicInfo
+	retryBuf []byte
+	retryRet int64
 }
 
 func runPFaultCase(c *Case, env *Env) *Result {
@@ -137,6 +145,9 @@ func runPFaultCase(c *Case, env *Env) *Result {
 		}
 	}
 	segsRef := append([]segment.Segment(nil), segs...)
+	// retrySame: the next execution of a public merge asks the SAME Merger to
+	// write again after a failure (a caller that retries into a truncated file)
+	retrySame := false
 	// one execution of the workload with a writer fault and/or a cancellation point
 	exec := func(wf *WriteFault, cancelAt int) *pfOutcome {
 		Heartbeat()
@@ -178,7 +189,18 @@ func runPFaultCase(c *Case, env *Env) *Result {
 					runSegs[k] = fresh
 				}
 			}
-			_, out.ret, out.pi, out.err = RunMerge(pc.Merge, pc.Mode, runSegs, drops, wr, closeCh)
+			if pc.Merge.Public && retrySame {
+				m := ice.Merge(runSegs, drops, pc.Merge.Buf)
+				out.pi = Guard(func() { out.ret, out.err = m.WriteTo(wr, closeCh) })
+				if out.pi == nil && out.err != nil {
+					wr2 := NewSimWriter(sched)
+					out.retried = true
+					out.retryPi = Guard(func() { out.retryRet, out.retryErr = m.WriteTo(wr2, nil) })
+					out.retryBuf = wr2.Buf
+				}
+			} else {
+				_, out.ret, out.pi, out.err = RunMerge(pc.Merge, pc.Mode, runSegs, drops, wr, closeCh)
+			}
 		} else {
 			wr.OnWrite = func(int, int) { event++ }
 			out.pi = Guard(func() { out.ret, out.err = target.Seg.WriteTo(wr, nil) })
@@ -218,6 +240,19 @@ func runPFaultCase(c *Case, env *Env) *Result {
 			res.Fail = mismatch("C15", "immutability", "merge-arguments", changed)
 		}
 	}()
+	checkRetry := func(o *pfOutcome, what string, B []byte) *Fail {
+		if !o.retried {
+			return nil
+		}
+		res.probe("same-merger-asked-again-after-a-failure")
+		if o.retryPi != nil {
+			return &Fail{Prop: "C12", Oracle: "persist-fault", Kind: "panic", Site: o.retryPi.Site, Detail: fmt.Sprintf("%s: %s; the same Merger asked to write again to a healthy writer panicked: %s", desc, what, o.retryPi.Msg)}
+		}
+		if o.retryErr == nil && (!bytes.Equal(o.retryBuf, B) || o.retryRet != int64(len(B))) {
+			return &Fail{Prop: "C12", Oracle: "persist-fault", Kind: "silent-success", Site: "Merger.WriteTo(retry)", Detail: fmt.Sprintf("%s: %s; the same Merger asked to write again to a healthy writer returned n=%d, err=nil, but the %d bytes it wrote are not the complete %d-byte file (first difference at %d)", desc, what, o.retryRet, len(o.retryBuf), len(B), firstDiff(o.retryBuf, B))}
+		}
+		return nil
+	}
 	free := exec(nil, -1)
 	if free.pi != nil || free.err != nil {
 		prop := "C02"
@@ -272,7 +307,9 @@ func runPFaultCase(c *Case, env *Env) *Result {
 	// ---- failing writer at every byte offset ----
 	for k := 0; k < L; k++ {
 		// every third offset fails with an error that calls itself temporary
+		retrySame = k%(L/24+1) == 0 || k >= L-3
 		o := exec(&WriteFault{After: k, Temp: k%3 == 1}, -1)
+		retrySame = false
 		if k%3 == 1 {
 			res.fault("writer-fails-persistently-with-temporary-error", 1, 1)
 		} else {
@@ -284,6 +321,10 @@ func runPFaultCase(c *Case, env *Env) *Result {
 		}
 		if o.err == nil {
 			res.Fail = &Fail{Prop: "C12", Oracle: "persist-fault", Kind: "silent-success", Site: writerSite(pc), Detail: fmt.Sprintf("%s: the writer accepted only %d of %d bytes and failed from then on, yet WriteTo returned n=%d, err=nil", desc, k, L, o.ret)}
+			return res
+		}
+		if f := checkRetry(o, fmt.Sprintf("the first WriteTo failed (writer failing after %d of %d bytes)", k, L), B); f != nil {
+			res.Fail = f
 			return res
 		}
 		// a failed persist must leave the segment as it was: persisting it
@@ -332,8 +373,10 @@ func runPFaultCase(c *Case, env *Env) *Result {
 		for e := 0; e <= free.events; e++ { // e == events: never reached = "after the last event"
 			points = append(points, e)
 		}
-		for _, e := range points {
+		for pi, e := range points {
+			retrySame = pi%3 == 0
 			o := exec(nil, e)
+			retrySame = false
 			fired := 1
 			if e >= o.events && e != -2 {
 				fired = 0
@@ -356,6 +399,10 @@ func runPFaultCase(c *Case, env *Env) *Result {
 				res.probe("cancel-too-late-complete-file")
 			case errors.Is(o.err, segment.ErrClosed):
 				res.probe("cancel-reported-ErrClosed")
+				if f := checkRetry(o, "the first WriteTo was cancelled "+when, B); f != nil {
+					res.Fail = f
+					return res
+				}
 			default:
 				res.Fail = &Fail{Prop: "C12", Oracle: "persist-fault", Kind: "error", Site: "cancel", Detail: fmt.Sprintf("%s: close channel closed %s: WriteTo returned %v, which is neither ErrClosed nor success", desc, when, o.err)}
 				return res
